@@ -130,7 +130,7 @@ reg("C04", EX, "exhaustive enumeration of stated lattices: operator moments read
     "Limited claim (convergence is asymptotic; a ladder can only refute it). E1, exact: for the 12 linear reconstructions the moments of the "
     "circulant stencil read off the real rhs match those of -a d/dx up to the design order (1, 2, 3). E2: observed L1 order on the finest pair "
     "of a 3-4 level ladder of real solves of sin(2 pi k x+phi) for every reconstruction x 3-5 high-order integrators x 2 wavelengths x 2 "
-    "phases x 3 speeds. E3: 42 Riemann problems and their mirror images x {hlle,hllc} x {extrapol1, muscl} x SSP integrators on n=50..200 "
+    "phases x 3 speeds. E3: 30 Riemann problems (|u|<c) and their mirror images x {hlle,hllc} x {extrapol1, muscl} x SSP integrators on n=50..200 "
     "(400): error ratio < 1 at every refinement, <= 0.9 on the finest pair, equal errors for a problem and its mirror image; "
     "solution.euler_riemann against an independent exact solver (Toro) at 41 x/t per problem; solution.euler_nozzle against nozzle-flow "
     "identities for 8 NPR x 2 gamma x 2 meshes.",
